@@ -291,14 +291,21 @@ func (t *MessageContainer) MarshalTL(e *tl.Encoder) error {
 
 func (t *MessageContainer) UnmarshalTL(d *tl.Decoder) error {
 	count := int(d.PopInt())
-	arr := make([]*messages.Encrypted, count)
+	if count < 0 {
+		return errors.Errorf("invalid count of messages in container: %v", count)
+	}
+	// count is untrusted, so it's not used for preallocating
+	arr := make([]*messages.Encrypted, 0)
 	for i := 0; i < count; i++ {
 		msg := new(messages.Encrypted)
 		msg.MsgID = d.PopLong()
 		msg.SeqNo = d.PopInt()
 		size := d.PopInt()
 		msg.Msg = d.PopRawBytes(int(size))
-		arr[i] = msg
+		if err := d.CheckErr(); err != nil {
+			return errors.Wrapf(err, "reading message %v of container", i)
+		}
+		arr = append(arr, msg)
 	}
 	*t = arr
 
